@@ -33,6 +33,12 @@ type skEntry struct {
 	poisoned  bool
 	inputs    []wv // accepted (value, weight) pairs, when known
 	known     bool // inputs are the complete history of this sketch
+
+	// cache of the sorted candidates of the quantile oracle (see candidates)
+	inVer, candVer int
+	candCs         []cand
+	candW          *big.Rat
+	candUnit       bool
 }
 
 func (e *skEntry) sk() *ddsketch.DDSketch {
@@ -356,6 +362,7 @@ func (r *Runner) execSketch(cmd string, a []string) string {
 		}
 		if w > 0 && !math.IsInf(w, 0) {
 			e.inputs = append(e.inputs, wv{v, ratOf(w)})
+			e.inVer++
 		}
 		return "ok"
 	case "q":
@@ -437,6 +444,9 @@ func (r *Runner) execSketch(cmd string, a []string) string {
 		if len(vs) == 0 {
 			return "-"
 		}
+		for i, q := range qs { // each answer of the batch meets the accuracy guarantee (C01/C05/C11)
+			r.quantileOracle(e, q, vs[i], nil)
+		}
 		parts := make([]string, len(vs))
 		for i, v := range vs {
 			parts[i] = showF(v)
@@ -497,6 +507,7 @@ func (r *Runner) execSketch(cmd string, a []string) string {
 			return "err:" + skErrName(err)
 		}
 		e.inputs = append(e.inputs, o.inputs...)
+		e.inVer++
 		e.known = e.known && o.known
 		if (o.storeKind == "low" || o.storeKind == "high") && o.storeKind != e.storeKind {
 			// the argument contributes its folded content, not its raw inputs
@@ -540,6 +551,7 @@ func (r *Runner) execSketch(cmd string, a []string) string {
 			e.plain.Clear()
 		}
 		e.inputs = nil
+		e.inVer++
 		e.known = true
 		return "ok"
 	case "rew":
@@ -579,6 +591,7 @@ func (r *Runner) execSketch(cmd string, a []string) string {
 		for i := range e.inputs {
 			e.inputs[i].w = new(big.Rat).Mul(e.inputs[i].w, wr)
 		}
+		e.inVer++
 		return "ok"
 	case "fe":
 		if len(a) != 2 {
